@@ -95,6 +95,17 @@ pub fn run() -> i32 {
     for a in &small { for b in &small { specs.push(vec![vec![*a], vec![], vec![*b]]); specs.push(vec![vec![";; nothing"], vec![*a], vec![*b]]); } }
     let mut t = Acc::default();
     par_fold(specs.len(), 16, Acc::default, |i, a| for p in phrases { check(&specs[i], p, a) }, |a| t.merge(a));
+    // rules that edit a syllable at its front / in the middle, followed by rules that compare whole syllables or segments with variables:
+    // the run hands the edited word itself on to the next group, the trace a copy of it — both must see the same word
+    let pool2 = ["* > t / a$_a", "* > t / $_a", "* > i / $_C", "%=1 > * / _1", "%=1 > * / 1_", "C=1 > * / _V 1", "a > o / _#", "%=1 1 > 1", "* > 1 / $_C=1", "$C > & / V_"];
+    let phrases2 = ["ta.a", "ka ta.a.ki", "sa.a.ta ta.a", "a.a.a", "ta.ta.a pa.a"];
+    let mut specs2: Vec<Vec<Vec<&str>>> = vec![];
+    for a in pool2 { for b in pool2 { specs2.push(vec![vec![a], vec![b]]); for c in pool2 { specs2.push(vec![vec![a], vec![b], vec![c]]); } } }
+    let mut t2 = Acc::default();
+    par_fold(specs2.len(), 16, Acc::default, |i, a| for p in phrases2 { check(&specs2[i], p, a) }, |a| t2.merge(a));
+    r.boxes.push(json!({"box": "front / mid-syllable edits followed by variable comparisons (10-rule pool, lists of 2 and 3 groups)", "group_lists": specs2.len(), "phrases": phrases2.len(), "comparisons": t2.evals, "reported": t2.reported}));
+    r.guard(t2.reported > 500, "second pool: more than 500 traces report a change");
+    t.merge(t2);
     r.evaluations = t.evals; r.transitions = t.evals * 4; r.validated = t.reported + t.silent + t.errs; r.nontrivial = t.reported; r.states = t.outs;
     r.outcome("traces_with_reports", t.reported); r.outcome("traces_without_reports", t.silent); r.outcome("all_entry_points_err", t.errs);
     r.boxes.push(json!({"box": "group lists x phrases", "group_lists": specs.len(), "phrases": phrases.len(), "comparisons": t.evals}));
